@@ -8,6 +8,7 @@ import (
 	"path/filepath"
 	"sort"
 	"strings"
+	"sync/atomic"
 
 	"ariga.io/atlas/sql/migrate"
 	"ariga.io/atlas/sql/schema"
@@ -51,11 +52,14 @@ type EOutcome struct {
 	Viol         string   `json:"violation,omitempty"` // class
 	Key          string   `json:"key,omitempty"`
 	Why          string   `json:"why,omitempty"`
-	FactsDiff    []string `json:"facts_diff,omitempty"`  // facts after down vs facts before up
-	AtlasDiff    []string `json:"atlas_diff,omitempty"`  // change descriptors of Atlas's own comparison
-	UpChanged    bool     `json:"up_changed_facts"`      // the forward statements changed the catalogue facts
-	ReachedB     string   `json:"reached_desired"`       // yes | no | n/a (C01's question; recorded, not judged)
-	Kinds        []string `json:"change_kinds,omitempty"` // statement kinds reversed
+	FactsDiff    []string `json:"facts_diff,omitempty"`                      // facts after down vs facts before up
+	AtlasDiff    []string `json:"atlas_diff,omitempty"`                      // change descriptors of Atlas's own comparison
+	SelfDiff     bool     `json:"start_state_differs_from_itself,omitempty"` // Atlas's differ reports changes between two inspections of the start state
+	TextChanged  []string `json:"objects_with_changed_create_text,omitempty"`
+	TextClass    string   `json:"create_text_difference,omitempty"` // requoted | reparenthesized | other
+	UpChanged    bool     `json:"up_changed_facts"`                 // the forward statements changed the catalogue facts
+	ReachedB     string   `json:"reached_desired"`                  // yes | no | n/a (C01's question; recorded, not judged)
+	Kinds        []string `json:"change_kinds,omitempty"`           // statement kinds reversed
 	MultiReverse int      `json:"multi_statement_reverses"`
 	plan         *migrate.Plan
 }
@@ -177,6 +181,23 @@ func runEngine(ctx context.Context, dir string, cs ECase, judge func(*migrate.Pl
 		o.Inconclusive = "inspect-start"
 		return
 	}
+	// guard: Atlas must see the start state as equal to itself; otherwise (the pre-registered defect of
+	// C01/C03: auto-indexes of inline UNIQUE constraints) its differ cannot be the judge of "no difference"
+	// for this database and plans computed from it are contaminated by that defect
+	self1, _, err1 := inspect(ctx, db)
+	self2, _, err2 := inspect(ctx, db)
+	if err1 != nil || err2 != nil {
+		o.Inconclusive = "inspect-start"
+		return
+	}
+	if sd, err := drv.SchemaDiff(self1, self2, schema.DiffNormalized()); err != nil || len(sd) > 0 {
+		o.SelfDiff = true
+		if cs.Src != "drop-all" && cs.Src != "rename" {
+			// the differ's plan for (start, desired) carries the spurious changes of the self-diff
+			o.OOD = "start-state-differs-from-itself(C01:inline-unique-auto-index)"
+			return
+		}
+	}
 	var changes []schema.Change
 	if cs.Rename != nil {
 		if changes, err = renameChanges(cur, cs.Rename); err != nil {
@@ -232,6 +253,11 @@ func runEngine(ctx context.Context, dir string, cs ECase, judge func(*migrate.Pl
 		o.Inconclusive = "facts-start"
 		return
 	}
+	master0, err := masterText(db)
+	if err != nil {
+		o.Inconclusive = "facts-start"
+		return
+	}
 	// all statements run on ONE connection (PRAGMA foreign_keys is a per-connection setting), outside
 	// a transaction, the way a migration tool runs the statements of an up / down file
 	xdb, err := sqlm.OpenDB(path)
@@ -248,7 +274,7 @@ func runEngine(ctx context.Context, dir string, cs ECase, judge func(*migrate.Pl
 	}()
 	fail := func(class string, i int, stmt string, err error) {
 		o.Viol = class
-		o.Key = "sqlite-engine|" + class + "|" + stmtKind(stmt) + "|" + sqlm.ErrClass(err.Error())
+		o.Key = "sqlite-engine|" + class + "|" + stmtKind(stmt) + "|" + errClass(err.Error(), sqlm.ErrClass)
 		o.Why = fmt.Sprintf("%s: statement %d %q: %v", class, i, clip(stmt, 200), err)
 	}
 	for i, s := range o.Up {
@@ -256,6 +282,11 @@ func runEngine(ctx context.Context, dir string, cs ECase, judge func(*migrate.Pl
 			if cs.Rows > 0 {
 				// on populated tables a forward statement may legitimately fail on the data (C01's domain)
 				o.Inconclusive = "up-fails-on-populated-database"
+				o.Why = fmt.Sprintf("statement %d %q: %v", i, clip(s, 200), err)
+				return
+			}
+			if o.SelfDiff {
+				o.Inconclusive = "up-fails-on-a-start-state-that-differs-from-itself(C01)"
 				return
 			}
 			// a plan reported reversible whose own forward statement does not execute on the (empty)
@@ -300,10 +331,26 @@ func runEngine(ctx context.Context, dir string, cs ECase, judge func(*migrate.Pl
 		return
 	}
 	planKinds := strings.Join(o.Kinds, ",")
+	master2, err := masterText(db2)
+	if err != nil {
+		o.Inconclusive = "facts-after-down"
+		return
+	}
+	// objects whose stored CREATE text is not what it was: what a difference is attributed to
+	changed, textClass := masterDiff(master0, master2)
+	o.TextChanged, o.TextClass = changed, textClass
 	if d := sqlm.DiffFacts(facts0, facts2); len(d) > 0 {
 		o.FactsDiff = d
 		o.Viol = "not-restored"
-		o.Key = "sqlite-engine|not-restored|facts:" + strings.Join(sqlm.DiffKinds(d), ",") + "|reversed:" + planKinds
+		names := changed
+		if len(names) == 0 {
+			names = factTables(d)
+		}
+		rev := touching(plan, names)
+		if rev == "?" {
+			rev = touching(plan, factTables(d))
+		}
+		o.Key = "sqlite-engine|not-restored|facts:" + strings.Join(sqlm.DiffKinds(d), ",") + "|reversed:" + rev
 		o.Why = fmt.Sprintf("after up and down the catalogue differs from the start in %d facts (PRAGMA reader): %s", len(d), clip(strings.Join(d, "; "), 400))
 		return
 	}
@@ -323,9 +370,20 @@ func runEngine(ctx context.Context, dir string, cs ECase, judge func(*migrate.Pl
 		o.Inconclusive = "diff-after-down"
 		return
 	}
+	if o.SelfDiff {
+		// the Atlas leg is not available on this database (see the guard above); the facts leg decided
+		return
+	}
 	if len(fwd)+len(bwd) > 0 {
-		d1, _ := sqlm.DescribeChanges(fwd)
-		d2, _ := sqlm.DescribeChanges(bwd)
+		d1, t1 := sqlm.DescribeChanges(fwd)
+		d2, t2 := sqlm.DescribeChanges(bwd)
+		dir := "both-directions"
+		switch {
+		case len(fwd) == 0:
+			dir = "start→after-only"
+		case len(bwd) == 0:
+			dir = "after→start-only"
+		}
 		for _, d := range d1 {
 			o.AtlasDiff = append(o.AtlasDiff, "after→start: "+d)
 		}
@@ -334,10 +392,141 @@ func runEngine(ctx context.Context, dir string, cs ECase, judge func(*migrate.Pl
 		}
 		types := sqlm.ChangeTypes(append(d1, d2...))
 		o.Viol = "not-restored"
-		o.Key = "sqlite-engine|not-restored|atlas-diff:" + strings.Join(types, ",") + "|reversed:" + planKinds
+		names, what := changed, strings.Join(types, ",")
+		if len(names) == 0 {
+			names = append(t1, t2...)
+		}
+		// root cause classes: the facts are equal, so when the stored text differs from the start only in
+		// identifier quoting / parentheses, Atlas's textual comparison of expressions is what reports it
+		if textClass == "requoted" || textClass == "reparenthesized" {
+			what = "expression-text-" + textClass
+		}
+		rev := touching(plan, names)
+		if rev == "?" {
+			rev = touching(plan, append(t1, t2...))
+		}
+		o.Key = "sqlite-engine|not-restored|atlas-diff:" + what + "(" + dir + ")|reversed:" + rev
 		o.Why = "after up and down Atlas reports a difference from the start: " + strings.Join(o.AtlasDiff, "; ")
 	}
 	return
+}
+
+// masterText returns the stored CREATE text of every table and index of the main schema.
+func masterText(db *sql.DB) (map[string]string, error) {
+	rows, err := sqlm.Query(db, "SELECT name, sql FROM sqlite_master WHERE sql IS NOT NULL AND name NOT LIKE 'sqlite\\_%' ESCAPE '\\'")
+	if err != nil {
+		return nil, err
+	}
+	out := map[string]string{}
+	for _, r := range rows {
+		out[r[0]] = r[1]
+	}
+	return out, nil
+}
+
+// masterDiff lists the objects whose stored text differs (or that exist on one side only) and names
+// how the texts differ: "requoted" (equal once identifier quotes are removed), "reparenthesized" (equal
+// once quotes, parentheses and blanks are removed), "other".
+func masterDiff(a, b map[string]string) (names []string, class string) {
+	strip := func(s, cut string) string {
+		return strings.Map(func(r rune) rune {
+			if strings.ContainsRune(cut, r) {
+				return -1
+			}
+			return r
+		}, s)
+	}
+	uncomment := func(s string) string {
+		var b strings.Builder
+		for i := 0; i < len(s); i++ {
+			switch {
+			case s[i] == '\'':
+				j := i + 1
+				for j < len(s) && s[j] != '\'' {
+					j++
+				}
+				b.WriteString(s[i:min(j+1, len(s))])
+				i = j
+			case strings.HasPrefix(s[i:], "--"):
+				for i < len(s) && s[i] != '\n' {
+					i++
+				}
+			case strings.HasPrefix(s[i:], "/*"):
+				if j := strings.Index(s[i+2:], "*/"); j >= 0 {
+					i += j + 3
+				} else {
+					i = len(s)
+				}
+			default:
+				b.WriteByte(s[i])
+			}
+		}
+		return b.String()
+	}
+	set := map[string]bool{}
+	rank := 0
+	for n, ta := range a {
+		tb, ok := b[n]
+		switch {
+		case !ok:
+			set[n], rank = true, 3
+		case ta != tb:
+			set[n] = true
+			switch {
+			case strip(ta, "\"`[]") == strip(tb, "\"`[]"):
+				rank = max(rank, 1)
+			case strip(uncomment(ta), "\"`[]() \t\n") == strip(uncomment(tb), "\"`[]() \t\n"):
+				rank = max(rank, 2)
+			default:
+				rank = 3
+			}
+		}
+	}
+	for n := range b {
+		if _, ok := a[n]; !ok {
+			set[n], rank = true, 3
+		}
+	}
+	return sortedSet(set), []string{"", "requoted", "reparenthesized", "other"}[rank]
+}
+
+// factTables lists the tables named by fact-diff lines ("- pk kvr (ns,k)", "+ col t.c aff=…").
+func factTables(diff []string) []string {
+	set := map[string]bool{}
+	for _, d := range diff {
+		f := strings.Fields(strings.TrimLeft(d, "+- "))
+		if len(f) >= 2 {
+			t := f[1]
+			if i := strings.IndexByte(t, '.'); i >= 0 {
+				t = t[:i]
+			}
+			set[t] = true
+		}
+	}
+	return sortedSet(set)
+}
+
+// touching names the kinds of the reversed statements that mention one of the tables — the part of the
+// plan a difference can be attributed to (keeps finding keys at root-cause level: a walk that also
+// creates unrelated tables has the same key as the single edit).
+func touching(p *migrate.Plan, tables []string) string {
+	set := map[string]bool{}
+	for _, c := range p.Changes {
+		r, _ := c.ReverseStmts()
+		if len(r) == 0 {
+			continue
+		}
+		text := c.Cmd + "\n" + strings.Join(r, "\n")
+		for _, t := range tables {
+			if strings.Contains(text, "`"+t+"`") {
+				set[stmtKind(c.Cmd)] = true
+			}
+		}
+	}
+	if len(set) == 0 {
+		return "?"
+	}
+	return strings.Join(sortedSet(set), ",")
 }
 
 // ---------------------------------------------------------------------------------------------
@@ -397,10 +586,12 @@ func engineCases(c *rt.Ctx) []ECase {
 	kinds := make([]string, 0, len(byKind))
 	for k := range byKind {
 		kinds = append(kinds, k)
-		r.Shuffle(len(byKind[k]), func(i, j int) { byKind[k][i], byKind[k][j] = byKind[k][j], byKind[k][i] })
 	}
 	sort.Strings(kinds)
-	nEdit := c.Pick(260, 3400)
+	for _, k := range kinds {
+		r.Shuffle(len(byKind[k]), func(i, j int) { byKind[k][i], byKind[k][j] = byKind[k][j], byKind[k][i] })
+	}
+	nEdit := c.Pick(330, 3600)
 	n := 0
 	for round := 0; n < nEdit; round++ {
 		took := false
@@ -423,7 +614,7 @@ func engineCases(c *rt.Ctx) []ECase {
 		}
 	}
 	// (4) walks of 2–4 edits of the reversible side (add column + add index + drop table + add table …)
-	for i := 0; i < c.Pick(70, 1200); i++ {
+	for i := 0; i < c.Pick(90, 1400); i++ {
 		p := pool[r.IntN(len(pool))]
 		cur := p.S.Clone()
 		var names []string
@@ -484,9 +675,13 @@ func engineCases(c *rt.Ctx) []ECase {
 			rows := ((pi + ti) % 2) * 3
 			out = append(out, ECase{Name: "rename-table/" + p.Name + "/" + t.Name, Src: "rename", A: p.S, Mode: mode, Rows: rows,
 				Rename: &Rename{Kind: "table", Table: t.Name, To: t.Name + "_rn"}})
-			col := t.Cols[(pi+ti)%len(t.Cols)]
-			out = append(out, ECase{Name: "rename-column/" + p.Name + "/" + t.Name + "." + col.Name, Src: "rename", A: p.S, Mode: mode, Rows: rows,
-				Rename: &Rename{Kind: "column", Table: t.Name, From: col.Name, To: col.Name + "_rn"}})
+			for ci, col := range t.Cols {
+				if c.Quick() && ci != (pi+ti)%len(t.Cols) {
+					continue
+				}
+				out = append(out, ECase{Name: "rename-column/" + p.Name + "/" + t.Name + "." + col.Name, Src: "rename", A: p.S, Mode: mode, Rows: rows,
+					Rename: &Rename{Kind: "column", Table: t.Name, From: col.Name, To: col.Name + "_rn"}})
+			}
 			for _, ix := range t.Idx {
 				if ix.Inline && mode != "atlas" {
 					continue // an index that belongs to a UNIQUE constraint cannot be dropped
@@ -503,6 +698,9 @@ func engineCases(c *rt.Ctx) []ECase {
 	return out
 }
 
+// engineSamples keeps two of the evidence samples for the engine part (the rest is for Part B).
+var engineSamples atomic.Int32
+
 func evalEngineCase(c *rt.Ctx, w *rt.W, cs ECase) {
 	w.Begin(cs)
 	dir, err := os.MkdirTemp(c.Scratch, fmt.Sprintf("c17-%d-", w.ID))
@@ -514,6 +712,7 @@ func evalEngineCase(c *rt.Ctx, w *rt.W, cs ECase) {
 	switch {
 	case o.Inconclusive != "":
 		c.Inconclusive(o.Inconclusive)
+		c.Info(map[string]any{"inconclusive": o.Inconclusive, "case": cs.Name, "mode": cs.Mode, "rows": cs.Rows, "plan": o.Plan, "why": o.Why})
 		return
 	case o.OOD != "":
 		c.OOD(o.OOD)
@@ -536,6 +735,9 @@ func evalEngineCase(c *rt.Ctx, w *rt.W, cs ECase) {
 	if o.UpChanged {
 		c.Count("engine-round-trips:up-changed-the-catalogue", 1)
 	}
+	if o.SelfDiff {
+		c.Count("engine-round-trips:atlas-leg-unavailable(start-state-differs-from-itself,C01)", 1)
+	}
 	c.Count("engine-up-reached-desired:"+o.ReachedB, 1)
 	for _, k := range o.Kinds {
 		c.Count("engine-reversed:"+k, 1)
@@ -548,7 +750,7 @@ func evalEngineCase(c *rt.Ctx, w *rt.W, cs ECase) {
 		c.Violation(o.Key, o.Why, cs, o)
 		return
 	}
-	if c.WantSample() && o.MultiReverse > 0 && len(o.Up) <= 8 {
+	if c.WantSample() && o.MultiReverse > 0 && len(o.Up) <= 8 && cs.Mode != "atlas" && engineSamples.Add(1) <= 2 {
 		c.Sample(map[string]any{"part": "engine", "case": cs.Name, "mode": cs.Mode, "rows": cs.Rows, "up": o.Up, "down": o.Down, "verdict": "facts after down == facts before up; Atlas diff empty both ways"})
 	}
 }
